@@ -8,7 +8,7 @@ from vlib.pyround import py_round, to_quantum
 PID = 'C13'
 PROPERTY_FILE = 'Properties/C13.v'
 # generated model parts (translate/) this property's model / proofs really depend on
-GEN_DEPS = ['RoundingImpl', 'QuantityImpl', 'StateInventory']
+GEN_DEPS = ['RoundingImpl', 'QuantityImpl', 'AllocImpl', 'StateInventory']
 MODEL_TARGETS = ['Corr/C13Corr.vo']
 PROOF_TARGETS = ['Proofs/C13Proofs.vo']
 COQ_HEADER = ("From QV Require Import Model.Num Model.Rounding Model.Quantity "
